@@ -151,6 +151,38 @@ def id_form_opaque(ctx, rule='C07.id-form-opaque'):
     return res
 
 
+def overlay_kept(ctx, rule='C07.overlay-kept'):
+    """what a transaction has opened or changed stays in its overlay until the commit: entries leave `InnerBucket.buckets` / `nodes` only where a bucket is deleted.  A bound on
+    the number of cached child buckets ("evict the clean ones") judges cleanliness by a shallow flag and drops a bucket whose nested bucket was written: the write is invisible
+    to later reads of the transaction and lost at commit"""
+    from effects import fn_effect_sites, REMOVING
+    res = []
+    F = ctx.facts
+    n = 0
+    # helpers of the commit's rebalance / spill pass and of deletion (`absorb_only_child` ...) remove what the tree no longer has
+    import c03
+    roots = [g for g in F.fns if g.self_adt and last_seg(g.self_adt) == 'InnerBucket' and g.kind != 'Closure' and g.name in ('merge_nodes', 'rebalance', 'spill')]
+    tidy = set()
+    for r0 in roots:
+        tidy |= set(F.reachable_fns([r0]))
+    for d0 in [g for g in F.fns if g.self_adt and last_seg(g.self_adt) == 'InnerBucket' and g.kind != 'Closure' and 'delete' in g.name]:
+        tidy |= {g for g in F.reachable_fns([d0]) if g is not d0 and c03._only_via(F, g, d0)}
+    for fn in sorted(F.fns, key=lambda g: g.path):
+        owner = (fn.owner or fn) if fn.kind == 'Closure' else fn
+        for (bb, adt, field, how) in fn_effect_sites(F, fn):
+            if not (adt and last_seg(adt) == 'InnerBucket' and field in ('buckets', 'nodes', 'page_node_ids') and how in REMOVING):
+                continue
+            n += 1
+            if 'delete' in owner.name or owner.name in ('merge_nodes', 'rebalance', 'spill') or owner in tidy:
+                continue
+            res.append(bad(rule, '%s | removes entries from InnerBucket.%s (%s)' % (fn.qual, field, how),
+                           '%s takes entries out of the transaction\'s overlay (InnerBucket.%s, `%s` at %s) although nothing is being deleted: whatever was changed behind the evicted '
+                           'entry is no longer seen by the transaction and never reaches the file' % (fn.qual, field, how, fn.loc(bb)), where=fn.loc(bb)))
+    if not any(not r.ok for r in res):
+        res.append(ok(rule, 'entries leave the overlay only where a bucket is deleted or the tree is rebalanced (%d removal sites)' % n, sites=max(n, 1)))
+    return res
+
+
 def reresolve(ctx, rule='C07.reresolve'):
     res = []
     F = ctx.facts
@@ -482,10 +514,15 @@ def run(ctx, tier):
     results += overlay_first(ctx)
     results += read_via_overlay(ctx)
     results += reresolve(ctx)
+    results += overlay_kept(ctx)
     results += id_form_opaque(ctx)
     import c08
     results += c08.seek_searches(ctx, rule='C07.seek-searches')
     results += c08.keys_as_bytes(ctx, rule='C07.keys-as-bytes')
+    import c05
+    results += c05.no_narrowing(ctx, rule='C07.no-narrowing')
+    import c09
+    results += c09.writer_reads_after_lock(ctx, rule='C07.writer-snapshot')
     results += c08.stack_never_emptied(ctx, rule='C07.stack-never-emptied')
     results += single_root(ctx)
     results += exact_match_used(ctx)
